@@ -64,6 +64,10 @@ pub struct Case {
     /// output node (logical label, taken modulo the live nodes) of each consecutive process call
     pub outputs: Vec<usize>,
     pub proc_capacity: usize,
+    /// output buffers per logical label (cycled; empty = one buffer each).  Zero-buffer nodes
+    /// (meters, recorders) are legal and must still be processed.
+    #[serde(default)]
+    pub bufs: Vec<usize>,
 }
 
 /// the two containers behind one interface
@@ -76,7 +80,8 @@ pub fn check(c: &Case, st: &mut Stats) -> CheckResult {
     let log: Log = Rc::new(RefCell::new(Vec::new()));
     let total = c.n + if c.stable { c.added } else { 0 };
     ensure!(total >= 1, "bad case: empty graph");
-    let mk = |id: usize| NodeData::new1(ProbeNode { id, log: log.clone() });
+    let nbufs = |id: usize| -> usize { if c.bufs.is_empty() { 1 } else { c.bufs[id % c.bufs.len()] } };
+    let mk = |id: usize| NodeData::new(ProbeNode { id, log: log.clone() }, vec![Buffer::SILENT; nbufs(id)]);
     let mut g = if c.stable { G::Stable(StableGraph::with_capacity(0, 0)) } else { G::Plain(Graph::with_capacity(0, 0)) };
     let mut idx: BTreeMap<usize, NodeIndex> = BTreeMap::new();
     let mut live: BTreeSet<usize> = BTreeSet::new();
@@ -226,7 +231,9 @@ pub fn check(c: &Case, st: &mut Stats) -> CheckResult {
                 call, r.id, got_ptrs.len(), exp_ptrs.len(), edges, got_ptrs, exp_ptrs
             );
             ensure!(r.own_ptr == buf_ptr(r.id), "call {} node {}: output slice is not the node's own buffers", call, r.id);
-            ensure!(!r.input_ptrs.contains(&r.own_ptr), "call {} node {}: its own buffers were presented as an input", call, r.id);
+            if nbufs(r.id) > 0 {
+                ensure!(!r.input_ptrs.contains(&r.own_ptr), "call {} node {}: its own buffers were presented as an input", call, r.id);
+            }
         }
         // acyclic upstream subgraph: inputs first, and outputs == functional evaluation
         let sub: Vec<(usize, usize)> = edges.iter().copied().filter(|(a, b)| expect.contains(a) && expect.contains(b) && a != b).collect();
@@ -261,7 +268,7 @@ pub fn check(c: &Case, st: &mut Stats) -> CheckResult {
             for &v in &order {
                 let mut acc = v as f32;
                 for &(a, b) in &sub {
-                    if b == v {
+                    if b == v && nbufs(a) > 0 {
                         acc += val[&a];
                     }
                 }
@@ -271,7 +278,7 @@ pub fn check(c: &Case, st: &mut Stats) -> CheckResult {
             if sub.len() > expect.len().saturating_sub(1) {
                 any_diamond = true;
             }
-            for &v in &expect {
+            for &v in expect.iter().filter(|v| nbufs(**v) > 0) {
                 let b0 = match &g {
                     G::Plain(g) => g[idx[&v]].buffers[0][0],
                     G::Stable(g) => g[idx[&v]].buffers[0][0],
@@ -293,6 +300,7 @@ pub fn check(c: &Case, st: &mut Stats) -> CheckResult {
     st.class_if(c.stable && vacant_now > 0, "stable graph with a vacant slot");
     st.class_if(c.stable && c.added > 0 && !c.removed.is_empty(), "slot reuse after removal");
     st.class_if(c.outputs.len() > 1, "repeated process calls on one processor");
+    st.class_if((0..total).any(|l| nbufs(l) == 0), "node without output buffers");
     Ok(())
 }
 
@@ -300,8 +308,8 @@ pub fn case_strategy(max_n: usize) -> impl Strategy<Value = Case> {
     (1usize..=max_n, any::<bool>()).prop_flat_map(|(n, stable)| {
         let e = proptest::collection::vec((0..n, 0..n), 0..(3 * n + 2));
         let late = proptest::collection::vec((0..n + 3, 0..n + 3), 0..6);
-        (e, proptest::collection::vec(0..n, 0..(n / 2 + 1)), 0usize..3, late, proptest::collection::vec(0usize..64, 1..5), 0usize..(n + 2)).prop_map(
-            move |(edges, removed, added, late_edges, outputs, proc_capacity)| Case {
+        (e, proptest::collection::vec(0..n, 0..(n / 2 + 1)), 0usize..3, late, proptest::collection::vec(0usize..64, 1..5), 0usize..(n + 2), prop_oneof![2 => Just(vec![]), 1 => proptest::collection::vec(0usize..=2, 1..5)]).prop_map(
+            move |(edges, removed, added, late_edges, outputs, proc_capacity, bufs)| Case {
                 stable,
                 n,
                 edges,
@@ -310,6 +318,7 @@ pub fn case_strategy(max_n: usize) -> impl Strategy<Value = Case> {
                 late_edges,
                 outputs,
                 proc_capacity,
+                bufs,
             },
         )
     })
@@ -323,7 +332,7 @@ pub fn run(ctx: &mut Ctx) {
          non-trivial: cycle, self-loop, parallel edge, a node not reaching the output, a diamond, or a vacant slot",
     );
     ctx.assume("nodes are instrumented (identity, input buffer pointers, own buffer pointer per invocation); expected set = reverse reachability over the harness's own edge list; the order of a node's inputs is unspecified and not asserted; values are small integers so that evaluation order cannot matter");
-    for c in ["upstream subgraph has a cycle", "self-loop", "parallel edges", "a node that does not reach the output", "diamond (reconverging paths)", "stable graph with a vacant slot"] {
+    for c in ["upstream subgraph has a cycle", "self-loop", "parallel edges", "a node that does not reach the output", "diamond (reconverging paths)", "stable graph with a vacant slot", "node without output buffers"] {
         ctx.require_class(c);
     }
     // (a) every multigraph on n <= 3 nodes, multiplicity 0..2, every output node, both containers
@@ -341,12 +350,12 @@ pub fn run(ctx: &mut Ctx) {
                 k /= 3;
             }
             for out in 0..n {
-                cases.push(Case { stable: code % 2 == 0, n, edges: edges.clone(), removed: vec![], added: 0, late_edges: vec![], outputs: vec![out, (out + 1) % n], proc_capacity: code % 4 });
+                cases.push(Case { stable: code % 2 == 0, n, edges: edges.clone(), removed: vec![], added: 0, late_edges: vec![], outputs: vec![out, (out + 1) % n], proc_capacity: code % 4, bufs: if code % 5 == 0 { vec![0, 1, 2] } else { vec![] } });
             }
             // every single removal (stable) followed by one re-added node wired like the removed one's successor
             if n == 3 && code % 3 == 0 {
                 for r in 0..n {
-                    cases.push(Case { stable: true, n, edges: edges.clone(), removed: vec![r], added: code % 2, late_edges: vec![(3, (r + 1) % 3), ((r + 2) % 3, 3)], outputs: vec![(r + 1) % 3, 0, 1], proc_capacity: 0 });
+                    cases.push(Case { stable: true, n, edges: edges.clone(), removed: vec![r], added: code % 2, late_edges: vec![(3, (r + 1) % 3), ((r + 2) % 3, 3)], outputs: vec![(r + 1) % 3, 0, 1], proc_capacity: 0, bufs: vec![] });
                 }
             }
         }
@@ -370,7 +379,7 @@ pub fn run(ctx: &mut Ctx) {
                     }
                 }
             }
-            Case { stable: code % 2 == 1, n: 4, edges, removed: if code % 8 == 7 { vec![(code % 4) as usize] } else { vec![] }, added: 0, late_edges: vec![], outputs: vec![out], proc_capacity: 4 }
+            Case { stable: code % 2 == 1, n: 4, edges, removed: if code % 8 == 7 { vec![(code % 4) as usize] } else { vec![] }, added: 0, late_edges: vec![], outputs: vec![out], proc_capacity: 4, bufs: if code % 3 == 0 { vec![1, 0, 2, 1, 0] } else { vec![] } }
         },
         check,
     );
@@ -395,7 +404,7 @@ pub fn run(ctx: &mut Ctx) {
                         }
                     }
                 }
-                Case { stable: code % 2 == 1, n: 5, edges, removed: vec![], added: 0, late_edges: vec![], outputs: vec![out], proc_capacity: 0 }
+                Case { stable: code % 2 == 1, n: 5, edges, removed: vec![], added: 0, late_edges: vec![], outputs: vec![out], proc_capacity: 0, bufs: vec![] }
             },
             check,
         );
